@@ -53,9 +53,11 @@ Proof. vm_compute. reflexivity. Qed.
 
 (** Round 5: census of package-level mutable state (gen/Gen_PkgState.v, written by the same go/types
     pass on every run): every package-level variable of map / slice / pointer / sync type (or a struct
-    holding one) that the anchored packages write after initialisation is a row of the table of
-    variables the process-history stage (`history`) exercises, and every row of that table is still a
-    Mutable variable of the regenerated census.  A new package-level cache breaks this obligation. *)
+    holding one) that the anchored packages write after initialisation is a row of the table
+    Det/PkgStateCovered.v -- which names, per variable, the scenario of the process-history stage
+    (`history`) that exercises it (7 rows) or the reason it cannot be reached (2 rows: the CLI flag
+    block, the framework's own crash-point table) -- and every row of that table is still a Mutable
+    variable of the regenerated census.  A new package-level cache breaks this obligation. *)
 Theorem C20_pkgstate_covered :
   pkgstate_covered pkg_state exercised_state = true.
 Proof. exact pkgstate_is_covered. Qed.
@@ -447,6 +449,27 @@ Example C20_qualify_references_ex :
   map (QualifyReferences_ref (QualifyObjects_go specs)) [QO 2 10; QO 3 1; QO 3 11; QO 2 11]
   = [RefQualified 2 10; RefQualified 3 1; RefPlain 11; RefPlain 11]
   /\ QualifyReferences_ref (QualifyObjects_go specs) (QO 2 12) = RefMissing.
+Proof. vm_compute. split; reflexivity. Qed.
+
+(* REFUTED: "after QualifyObjects no block written with one label carries a name that another block
+   uses as its qualifier".  The last loop qualifies s2.s1 (label = the qualifier s1) with s2 but does
+   not add s2 to the set it consults: s2.s2 stays [table "s2"] next to [table "s2" "s1"].
+   Reproduced on the real code (found by the thorough tier): the document does not evaluate
+   (oracle class qualify-roundtrip, known finding C20-qualify-pass3-not-closed). *)
+Theorem C20_qualify_unambiguous_refuted :
+  exists specs, NoDup specs /\ ambiguousb (QualifyObjects_go specs) = true.
+Proof. exact qualify_unambiguous_refuted. Qed.
+Print Assumptions C20_qualify_unambiguous_refuted.
+(* what the last loop does guarantee: no unqualified object is labelled like the schema of an
+   object qualified because of a same-named object in another schema *)
+Theorem C20_qualify_unambiguous_except : forall specs o o',
+  qualifier_spec specs o = None -> In o' specs -> conflictb specs o' = true -> q_label o <> q_schema o'.
+Proof. exact qualify_unambiguous_except. Qed.
+Print Assumptions C20_qualify_unambiguous_except.
+Example C20_qualify_unambiguous_ex :
+  ambiguousb (QualifyObjects_go [QO 1 10; QO 2 10; QO 3 1; QO 3 11]) = false /\
+  QualifyObjects_go [QO 1 10; QO 2 1; QO 2 2; QO 3 10]
+  = [(QO 1 10, Some 1); (QO 2 1, Some 2); (QO 2 2, None); (QO 3 10, Some 3)].
 Proof. vm_compute. split; reflexivity. Qed.
 
 (* REFUTED: "a reference to an object carries a qualifier exactly when the object's block does".
